@@ -2,8 +2,9 @@
    tables (re-run whenever coq/gen changes).  ExtrOcamlBasic only. *)
 From Coq Require Import ExtrOcamlBasic.
 From Coq Require Import List ZArith String.
-From IprV Require Import GenTypes Visitor.
-From IprV.gen Require Import GenCategory GenIface GenVisitor GenAccept.
+From Coq Require Import NArith.
+From IprV Require Import GenTypes Visitor Bits.
+From IprV.gen Require Import GenCategory GenIface GenVisitor GenAccept GenWords GenLexAcc.
 Import ListNotations.
 
 (* C06: for every leaf interface class: its name, the enumerator its code
@@ -19,4 +20,19 @@ Definition c06_rows : list (string * (string * (list string * (list string * lis
              filter (fun k => view gen_visitor k (if_name r)) (map if_name (leaves gen_ifaces)))))))
       (leaves gen_ifaces).
 
-Extraction "extracted/genmodel.ml" c06_rows.
+(* C10: subsets are given as bit masks over table positions *)
+Definition mask_select (tbl : list string) (m : N) : list string :=
+  map snd (filter (fun p => N.testbit m (N.of_nat (fst p))) (combine (seq 0 (List.length tbl)) tbl)).
+Definition mask_of (tbl : list string) (ws : list string) : N :=
+  fold_right (fun w acc => match str_index w tbl with Some i => N.lor (bit i) acc | None => acc end) 0%N ws.
+Definition c10_table (q : bool) : list string := if q then gen_std_qualifiers else gen_std_specifiers.
+Definition c10_union (q : bool) (m : N) : N := union_of (c10_table q) (mask_select (c10_table q) m).
+Definition c10_decomp (q : bool) (x : N) : list string := decompose (c10_table q) x.
+Definition c10_decomp_mask (q : bool) (x : N) : N := mask_of (c10_table q) (c10_decomp q x).
+Definition c10_project (q : bool) (w : string) : option N := project (c10_table q) w.
+Definition c10_accessors : list (string * lex_acc) := gen_lex_accessors.
+Definition c10_known_words : list string := gen_known_words.
+
+Extraction "extracted/genmodel.ml" c06_rows
+  c10_table c10_union c10_decomp c10_decomp_mask c10_project c10_accessors c10_known_words
+  Bits.implies N.lor N.land N.lxor.
